@@ -19,6 +19,7 @@ import (
 	"encoding/hex"
 	"encoding/json"
 	"fmt"
+	"io"
 	"os"
 	"path/filepath"
 	"runtime/debug"
@@ -448,4 +449,21 @@ func FixedInputs(t *testing.T, property, target string, inputs map[string][]byte
 // WriteFailure writes a failing case to $VERIF_CASEFILE (for fixed, non-generated cases).
 func WriteFailure(property string, c any, errText string) {
 	writeCase(os.Getenv("VERIF_CASEFILE"), property, c, errText)
+}
+
+// PlainReader hides every method of a reader except Read (no ReadByte, ReadAt,
+// Len, WriteTo): decoders must not depend on, or be confused by, reader extras.
+type PlainReader struct {
+	R     io.Reader
+	Chunk int // hand out at most Chunk bytes per call (0 = no limit)
+	Taken int // bytes handed out so far
+}
+
+func (p *PlainReader) Read(b []byte) (int, error) {
+	if p.Chunk > 0 && len(b) > p.Chunk {
+		b = b[:p.Chunk]
+	}
+	n, err := p.R.Read(b)
+	p.Taken += n
+	return n, err
 }
